@@ -42,6 +42,8 @@ SELFTEST = [
     {"mutation": "publish: `if self.duplicate_cache.contains(&msg_id)` -> `!contains`", "caught_by": "pub/already published id => Err(Duplicate), nothing sent"},
     {"mutation": "DuplicateCache::insert: returns true in the else branch", "caught_by": "cache/insert reports true only for a new key"},
     {"mutation": "report_message_validation_result: forward_msg(.., HashSet::new())", "caught_by": "fwd/validation path passes the recorded duplicate senders"},
+    {"mutation": "seeded C27: mcache.observe_duplicate moved inside `if let PeerScoreState::Active`", "caught_by": "recv/a duplicate's sender is always recorded for the pending forward"},
+    {"mutation": "NEUTRAL gs/02: duplicate branch extracted into a private helper on_duplicate_message", "caught_by": "(silent, the helper is summarised)"},
 ]
 
 # one-edit source variants for the thorough-tier sensitivity self-test (vrules/selftest.py); each must be reported
@@ -100,6 +102,7 @@ def check(ctx):
     prog = ctx.prog
     # =================================================================== receive path
     h = ctx.body(G, gs.BEH + r"handle_received_message$")
+    h_src = gs.arg_of_type(h, r"^&libp2p_identity::PeerId$")      # the peer the message was received from (by type, not name)
     rets = h.return_blocks()
     ev = event_pushes(h)
     ctx.floor("recv", "Event::Message push in handle_received_message", ev, 1)
@@ -168,11 +171,40 @@ def check(ctx):
         hit = sorted(set(effects + extra) & r_)
         ctx.ob("recv", "%s => nothing delivered, cached or forwarded" % name, bool(edges) and not hit, _loc(h),
                "from the %s edge no Event::Message / mcache.put / forward_msg%s is reachable%s" % (name, " / duplicate_cache.insert" if extra else "", "" if not hit else " — reachable blocks %s" % hit))
+    # the sender of a duplicate is recorded in the message cache on *every* path of the duplicate edge (not only when scoring is
+    # active): report_message_validation_result hands exactly these peers to forward_msg as `originating_peers`, which is what keeps a
+    # message whose validation is pending from being sent back to a peer it was received from.  A private helper that performs the
+    # call on all of its paths counts as the call (DESIGN section 3, wrappers).
+    OBS = r"mcache::MessageCache::observe_duplicate$"
+    markers = []          # (site in h, id expr, source expr)
+    for s in h.call_sites(OBS):
+        e = h.site_expr(s)
+        markers.append((s, e[2][1], e[2][2]))
+    by_path = {b.npath: b for b in prog.bodies(G)}
+    for s in h.call_sites():
+        cal = by_path.get(strip_generics(h.call_name(s.term)))
+        if cal is None or cal is h or cal.kind == "closure":
+            continue
+        inner = cal.call_sites(OBS)
+        if not inner or lib.count_range(cal, [0], cal.return_blocks(), lib.bbs(inner)) != (1, 1):
+            continue
+        ie = cal.site_expr(inner[0])
+        ce = h.site_expr(s)
+        if ie[2][1][0] == "arg" and ie[2][2][0] == "arg" and render(ie[2][0]) == "self.mcache":
+            markers.append((s, ce[2][ie[2][1][1] - 1], ce[2][ie[2][2][1] - 1]))
+            ctx.use(cal)
+    got = lib.count_range(h, gs.edge_targets(ins_false), rets, lib.bbs([m[0] for m in markers])) if ins_false else None
+    ctx.ob("recv", "a duplicate's sender is always recorded for the pending forward", got == (1, 1), markers[0][0].loc() if markers else _loc(h),
+           "mcache.observe_duplicate(id, sender) on every path of the duplicate edge (independent of scoring): %s" % (got,))
+    for s, ide, srce in markers:
+        ok = id_calls(gs.expand(h, ide)) == idsrc and gs.is_arg(srce, h_src)
+        ctx.ob("recv", "the recorded duplicate is this id from this sender", ok, s.loc(), "observe_duplicate(%s, %s)" % (render(ide)[-60:], render(srce)))
+    ctx.floor("recv", "duplicate-sender recording sites", markers, 1)
     for s in fw:
         e = h.site_expr(s)
         ctx.ob("recv", "forwarding only for a first-seen id", bool(ins_true) and h.must_pass_edges(s.bb, ins_true), s.loc(), "forward_msg dominated by duplicate_cache.insert(id) == true")
         a = e[2][3]
-        ok = a[0] == "agg" and a[3] == "Some" and a[4][0][1][0] == "arg" and (a[4][0][1][2] or "") == "propagation_source"
+        ok = a[0] == "agg" and a[3] == "Some" and gs.is_arg(a[4][0][1], h_src)
         ctx.ob("recv", "forwarding excludes the sender", ok, s.loc(), "forward_msg(.., propagation_source = %s, ..)" % render(a)[:80])
     lib.expect_count(ctx, "recv", "forwarded at most once", h, [0], rets, lib.bbs(fw), (0, 1), "forward_msg call")
     for s in ev:
@@ -201,9 +233,9 @@ def check(ctx):
 
     # =================================================================== forward_msg
     f = ctx.body(G, gs.BEH + r"forward_msg$")
-    names = {v: k for k, v in f.names.items() if k <= f.argc}
-    ps_arg, orig_arg, msg_arg, id_arg = names.get("propagation_source"), names.get("originating_peers"), names.get("message"), names.get("msg_id")
-    ctx.ob("fwd", "floor:forward_msg parameters", None not in (ps_arg, orig_arg, msg_arg, id_arg), nontrivial=False, msg=str(names))
+    ps_arg, orig_arg = gs.arg_of_type(f, r"^std::option::Option<&libp2p_identity::PeerId>$"), gs.arg_of_type(f, r"^std::collections::HashSet<libp2p_identity::PeerId>$")
+    msg_arg, id_arg = gs.arg_of_type(f, r"^types::RawMessage$"), gs.arg_of_type(f, r"^&types::MessageId$")
+    ctx.ob("fwd", "floor:forward_msg parameters", None not in (ps_arg, orig_arg, msg_arg, id_arg), nontrivial=False, msg=str((id_arg, msg_arg, ps_arg, orig_arg)))
     rec_l = [s for s in f.call_sites(r"HashSet::insert$") if f.site_expr(s)[2][0][0] == "local"]
     rl = {f.site_expr(s)[2][0][1] for s in rec_l}
     ctx.floor("fwd", "recipient_peers.insert sites", rec_l, 2)
@@ -269,15 +301,15 @@ def check(ctx):
            msg=str(sorted({c.body.npath.replace(B, "") for c in callers})))
     for c in callers:
         b = c.body
-        a = b.site_expr(c)[2][3]
-        ok = a[0] == "agg" and a[3] == "Some" and a[4][0][1][0] == "arg" and (a[4][0][1][2] or "") == "propagation_source"
+        a = b.site_expr(c)[2][ps_arg - 1]
+        ok = a[0] == "agg" and a[3] == "Some" and gs.is_arg(a[4][0][1], gs.arg_of_type(b, r"^&libp2p_identity::PeerId$"))
         ctx.ob("fwd", "%s passes Some(propagation_source)" % b.npath.replace(B, ""), ok, c.loc(), render(a)[:100])
         if b.npath.endswith("report_message_validation_result"):
             o = gs.expand(b, b.site_expr(c)[2][4])
             ok = gs.has_call(o, r"mcache::MessageCache::validate$") and render(o).endswith(".1")
             ctx.ob("fwd", "validation path passes the recorded duplicate senders", ok, c.loc(), "originating_peers = %s" % render(o)[:140])
             m = gs.expand(b, b.site_expr(c)[2][2])
-            ctx.ob("fwd", "validation path forwards the cached message of that id", gs.has_call(m, r"mcache::MessageCache::validate$") and render(b.site_expr(c)[2][1]) == "msg_id", c.loc(), render(m)[:140])
+            ctx.ob("fwd", "validation path forwards the cached message of that id", gs.has_call(m, r"mcache::MessageCache::validate$") and gs.is_arg(b.site_expr(c)[2][1], gs.arg_of_type(b, r"^&types::MessageId$")), c.loc(), render(m)[:140])
 
     # =================================================================== publish
     p = ctx.body(G, gs.BEH + r"publish$")
